@@ -19,7 +19,7 @@ static inline int v_topic_kind(const char *t) {           /* which system topic 
 #define V_G_SYS   g.sys_msgs, g.sys_topic, g.sys_sender, g.sys_kind, g.sys_started, g.sys_stopped, g.sys_ctx_started, g.sys_ctx_stopped, g.sys_tick, g.sys_pill
 #define V_G_MS    g.ms_calls, g.ms_flag, g.ms_stop, g.srcs_dropped
 #define V_G_HOOK  g_ctx->curr_mod, g.ref_calls, g.ref_arg, g.unref_calls, g.unref_arg, g.unref_arg_prev
-#define V_STOP_FRAME  V_G_SYS, V_G_MS, V_G_HOOK, g.reset_calls, V_CB_FRAME, g_mod->pubsub_fd[0], g_mod->pubsub_fd[1], g_mod->tb.rate, g_mod->tb.burst
+#define V_STOP_FRAME  V_G_SYS, V_G_MS, V_G_HOOK, g.reset_calls, g.ips_calls, V_CB_FRAME, g_mod->pubsub_fd[0], g_mod->pubsub_fd[1], g_mod->tb.rate, g_mod->tb.burst
 
 /* ---- callees ------------------------------------------------------------------------------------------------------- */
 V_CONTRACT
@@ -86,8 +86,8 @@ V_REQUIRES(v_base_ok() && mod == g_mod && V_MOD_OK && V_INV && (g_ctx->curr_mod 
 V_REQUIRES(stopping || g_mod->state == M_MOD_RUNNING)                                                                                       /*@C01.pause-only-from-running*/
 V_ASSIGNS(V_STOP_FRAME)
 V_ENSURES(V_MOD_OK && V_INV && g_ctx->curr_mod == V_OLD(g_ctx->curr_mod))                                                                         /*@C01.running-count-equals-running-modules*/
-V_ENSURES(V_IMP(g_ms_ret != 0, V_RET == g_ms_ret && g_mod->state == V_OLD(g_mod->state) && g.on_stop_calls == V_OLD(g.on_stop_calls) && g.sys_msgs == V_OLD(g.sys_msgs)))
-V_ENSURES(g.on_eval_calls == V_OLD(g.on_eval_calls) && g.ms_calls == V_OLD(g.ms_calls) + 1)
+V_ENSURES(V_IMP(g_ms_ret != 0, V_RET == g_ms_ret && g_mod->state == V_OLD(g_mod->state) && g.on_stop_calls == V_OLD(g.on_stop_calls) && g.sys_msgs == V_OLD(g.sys_msgs) && g.reset_calls == V_OLD(g.reset_calls)))
+V_ENSURES(g.on_eval_calls == V_OLD(g.on_eval_calls) && g.ms_calls == V_OLD(g.ms_calls) + 1 && g.ms_flag == RM && g.ms_stop == stopping && g.ips_calls == V_OLD(g.ips_calls))
 /* pause: RUNNING -> PAUSED, neither callback runs, sources kept, one MOD_STOPPED notification naming the module */
 V_ENSURES(V_IMP(g_ms_ret == 0 && !stopping, V_RET == 0 && g_mod->state == M_MOD_PAUSED && g.on_stop_calls == V_OLD(g.on_stop_calls) && g.on_start_calls == V_OLD(g.on_start_calls)
                 && g.reset_calls == V_OLD(g.reset_calls) && g.srcs_dropped == V_OLD(g.srcs_dropped)))                                        /*@C01.pause-runs-no-callback-keeps-sources*/
@@ -106,12 +106,14 @@ int start(m_mod_t *mod, bool starting)
 V_REQUIRES(v_base_ok() && mod == g_mod && V_MOD_OK && V_INV && (g_ctx->curr_mod == NULL || g_ctx->curr_mod == g_mod))
 /* documented edges: start from IDLE or STOPPED, resume from PAUSED */
 V_REQUIRES(starting ? (g_mod->state == M_MOD_IDLE || g_mod->state == M_MOD_STOPPED) : g_mod->state == M_MOD_PAUSED)                          /*@C01.start-only-from-idle-stopped-resume-only-from-paused*/
-V_ASSIGNS(V_STOP_FRAME, g.ips_calls)
+V_ASSIGNS(V_STOP_FRAME)
 V_ENSURES(V_MOD_OK && V_INV && g_ctx->curr_mod == V_OLD(g_ctx->curr_mod))                                                                       /*@C01.running-count-equals-running-modules*/
 /* environment failure (pipe / poll registration): error, state unchanged, no callback, no notification */
 V_ENSURES(V_IMP((starting && g_ips_ret != 0) || g_ms_ret != 0, V_RET != 0 && g_mod->state == V_OLD(g_mod->state) && g.on_start_calls == V_OLD(g.on_start_calls)
                 && g.sys_msgs == V_OLD(g.sys_msgs)))
 V_ENSURES(g.on_eval_calls == V_OLD(g.on_eval_calls) && g.ips_calls == V_OLD(g.ips_calls) + (starting ? 1 : 0))
+V_ENSURES(V_IMP(!starting, g.ms_calls == V_OLD(g.ms_calls) + 1 && g.ms_flag == ADD && g.reset_calls == V_OLD(g.reset_calls)))
+V_ENSURES(V_IMP(starting, g.ms_calls >= V_OLD(g.ms_calls) + (g_ips_ret == 0 ? 1 : 0)))
 /* resume: PAUSED -> RUNNING, neither callback, one MOD_STARTED */
 V_ENSURES(V_IMP(!starting && g_ms_ret == 0, V_RET == 0 && g_mod->state == M_MOD_RUNNING && g.on_start_calls == V_OLD(g.on_start_calls) && g.on_stop_calls == V_OLD(g.on_stop_calls)
                 && g.sys_started == V_OLD(g.sys_started) + 1 && g.sys_stopped == V_OLD(g.sys_stopped) && g.sys_sender == g_mod))             /*@C01.resume-runs-no-callback*/
@@ -161,7 +163,7 @@ V_CONTRACT
 int evaluate_module(void *data, const char *key, void *value)
 V_REQUIRES(v_base_ok() && value == (void *)g_mod && V_MOD_OK && V_INV && (g_ctx->curr_mod == NULL || g_ctx->curr_mod == g_mod) && g_mod->state != M_MOD_ZOMBIE)
 V_REQUIRES(g_mod->srcs[M_SRC_TYPE_THRESH] == g_thresh && g_thresh != NULL && V_R_OK(g_thresh, sizeof(struct _bst)) && g_thresh->len == 0)
-V_ASSIGNS(V_STOP_FRAME, g.ips_calls, g.fetch_calls)
+V_ASSIGNS(V_STOP_FRAME, g.fetch_calls)
 V_ENSURES(V_MOD_OK && V_INV)                                                                                                                /*@C01.running-count-equals-running-modules*/
 /* only IDLE modules are evaluated; absent or true evaluation => started (start callback etc. through start()) */
 V_ENSURES(V_IMP(V_OLD(g_mod->state) != M_MOD_IDLE, V_RET == 0 && g.on_eval_calls == V_OLD(g.on_eval_calls) && g.ips_calls == V_OLD(g.ips_calls) && g_mod->state == V_OLD(g_mod->state)))  /*@C01.only-idle-modules-are-evaluated*/
@@ -170,4 +172,55 @@ V_ENSURES(V_IMP(V_OLD(g_mod->state) == M_MOD_IDLE && g_mod->hook.on_eval == NULL
 /* the result never stops the pass over the other modules, except when this module was deregistered inside its callback
  * (the table changed; the next pass picks the others up) */
 V_ENSURES(V_RET == 0 || (V_RET == -ENOENT && g_mod->state == M_MOD_ZOMBIE))                                                                 /*@C01.evaluation-result-does-not-hide-other-modules*/
+;
+
+/* ---- public state setters: guard, token, then exactly one transition through start()/stop() ---------------------------- */
+#define V_G_SET(mod, allowed)   (V_G_MOD(mod) && ((mod)->state & (allowed)) != 0)
+#define V_SETREQ(mod)  (v_base_ok() && ((mod) == NULL || ((mod) == g_mod && V_MOD_OK && V_INV && (g_ctx->curr_mod == NULL || g_ctx->curr_mod == g_mod) \
+                        && g_mod->bound_mods == g_bound && g_bound != NULL && V_R_OK(g_bound, sizeof(struct _list)) && g_bound->len == 0)))
+#define V_SET_FRAME    V_STOP_FRAME, g.fetch_calls
+
+#define V_G_SET_OLD(mod, allowed)   ((mod) != NULL && !(V_OLD(g_mod->state) & M_MOD_ZOMBIE) && g_mod->ctx == g_mctx && (V_OLD(g_mod->state) & (allowed)) != 0)
+#define V_SETTER_COMMON(allowed) \
+V_ENSURES(V_IMP(!(V_G_SET_OLD(mod, allowed) && V_OLD(g_mod->tb.tokens) > 0), V_RET < 0)) \
+V_ENSURES(V_IMP(V_G_SET_OLD(mod, allowed) && V_OLD(g_mod->tb.tokens) == 0, V_RET == -EAGAIN)) \
+V_ENSURES(V_IMP(mod != NULL && !(V_OLD(g_mod->state) & M_MOD_ZOMBIE) && g_mod->ctx != g_mctx, V_RET == -EPERM)) \
+V_ENSURES(V_IMP(mod != NULL && (V_OLD(g_mod->state) & M_MOD_ZOMBIE), V_RET == -EACCES))
+
+V_CONTRACT
+int m_mod_start(m_mod_t *mod)
+V_REQUIRES(V_SETREQ(mod))
+V_ASSIGNS(V_G_SET(mod, M_MOD_IDLE | M_MOD_STOPPED) && g_mod->tb.tokens > 0: V_SET_FRAME)
+/* a state-changing call made in any other state (or on a zombie, or from a foreign thread, or without a token) returns a negative
+ * code and -- by the conditional frame above -- changes nothing */
+V_SETTER_COMMON(M_MOD_IDLE | M_MOD_STOPPED)                                                                                                 /*@C01.illegal-state-change-refused-without-effect*/
+V_ENSURES(V_IMP(V_OLD(g_mod->tb.tokens) > 0 && mod != NULL && !(V_OLD(g_mod->state) & M_MOD_ZOMBIE) && g_mod->ctx == g_mctx
+                && (V_OLD(g_mod->state) & (M_MOD_IDLE | M_MOD_STOPPED)), g.ips_calls == V_OLD(g.ips_calls) + 1 && g.ms_calls >= V_OLD(g.ms_calls) + (g_ips_ret == 0 ? 1 : 0)))  /*@C01.start-is-one-start-transition*/
+;
+V_CONTRACT
+int m_mod_pause(m_mod_t *mod)
+V_REQUIRES(V_SETREQ(mod))
+V_ASSIGNS(V_G_SET(mod, M_MOD_RUNNING) && g_mod->tb.tokens > 0: V_SET_FRAME)
+V_SETTER_COMMON(M_MOD_RUNNING)                                                                                                               /*@C01.illegal-state-change-refused-without-effect*/
+V_ENSURES(V_IMP(V_OLD(g_mod->tb.tokens) > 0 && mod != NULL && g_mod->ctx == g_mctx && V_OLD(g_mod->state) == M_MOD_RUNNING,
+                g.ms_calls == V_OLD(g.ms_calls) + 1 && g.ms_flag == RM && !g.ms_stop && g.reset_calls == V_OLD(g.reset_calls)
+                && V_IMP(g_ms_ret == 0, V_RET == 0 && g_mod->state == M_MOD_PAUSED)))                                                        /*@C01.pause-is-one-pause-transition*/
+;
+V_CONTRACT
+int m_mod_resume(m_mod_t *mod)
+V_REQUIRES(V_SETREQ(mod))
+V_ASSIGNS(V_G_SET(mod, M_MOD_PAUSED) && g_mod->tb.tokens > 0: V_SET_FRAME)
+V_SETTER_COMMON(M_MOD_PAUSED)                                                                                                                /*@C01.illegal-state-change-refused-without-effect*/
+V_ENSURES(V_IMP(V_OLD(g_mod->tb.tokens) > 0 && mod != NULL && g_mod->ctx == g_mctx && V_OLD(g_mod->state) == M_MOD_PAUSED,
+                g.ips_calls == V_OLD(g.ips_calls) && g.ms_calls == V_OLD(g.ms_calls) + 1 && g.ms_flag == ADD
+                && V_IMP(g_ms_ret == 0, V_RET == 0 && g_mod->state == M_MOD_RUNNING)))                                                       /*@C01.resume-is-one-resume-transition*/
+;
+V_CONTRACT
+int m_mod_stop(m_mod_t *mod)
+V_REQUIRES(V_SETREQ(mod))
+V_ASSIGNS(V_G_SET(mod, M_MOD_RUNNING | M_MOD_PAUSED) && g_mod->tb.tokens > 0: V_SET_FRAME)
+V_SETTER_COMMON(M_MOD_RUNNING | M_MOD_PAUSED)                                                                                                /*@C01.illegal-state-change-refused-without-effect*/
+V_ENSURES(V_IMP(V_OLD(g_mod->tb.tokens) > 0 && mod != NULL && g_mod->ctx == g_mctx && (V_OLD(g_mod->state) & (M_MOD_RUNNING | M_MOD_PAUSED)),
+                g.ms_calls == V_OLD(g.ms_calls) + 1 && g.ms_flag == RM && g.ms_stop
+                && V_IMP(g_ms_ret == 0, g.reset_calls == V_OLD(g.reset_calls) + 1 && (g_mod->state == M_MOD_STOPPED || g_mod->state == M_MOD_ZOMBIE))))  /*@C01.stop-is-one-stop-transition*/
 ;
